@@ -1404,10 +1404,213 @@ def run_race(ctx, case):
         shutil.rmtree(tmp, ignore_errors=True)
 
 
+
+# ---------------------------------------------------------------------------------------------
+# stream: e2e — the real DriverActor / Driver / Worker.drive / AsyncIoAdapter / AsyncExecutor / bulk runner on the
+# deterministic actor simulator (harness/sim_race.py), a recording _bulk endpoint at the far end
+# ---------------------------------------------------------------------------------------------
+def gen_e2e(ctx):
+    rng = ctx.rng
+    for case in gen_race(ctx):
+        # capped parallel elements more often: the clients of one task then run in several allocation columns of a worker
+        for el in case["schedule"]:
+            if el["parallel"] and rng.random() < 0.5:
+                total = sum(t["clients"] for t in el["tasks"])
+                el["clients"] = rng.randrange(1, max(2, total))
+        case["hostnames"] = rng.choice([["localhost"], ["localhost"], ["10.0.0.1", "10.0.0.2"]])
+        case["cores"] = rng.choice([1, 2, 3, 4])
+        case.pop("hosts", None)
+        yield case
+
+
+def e2e_track(case, rc, force_full):
+    from esrally import track
+
+    sched, desc = [], {}
+    k = 0
+    for el in case["schedule"]:
+        tasks = []
+        for t in el["tasks"]:
+            name = f"task{k}"
+            k += 1
+            if t["kind"] == "bulk":
+                pr = {"bulk-size": t["bulk"], "batch-size": t["batch"], "ingest-percentage": 100.0 if force_full else float(Fraction(t["pct"]))}
+                if t["corpus"] is not None:
+                    pr["corpora"] = rc[t["corpus"]].name
+                op = track.Operation(name + "-op", track.OperationType.Bulk.to_hyphenated_string(), params=pr)
+                tasks.append(track.Task(name, op, clients=t["clients"]))
+            else:
+                op = track.Operation(name, "sim", params={"task": name, "eternal": False, "weight": 1}, param_source="sim-source")
+                tasks.append(track.Task(name, op, clients=t["clients"], iterations=t["iterations"]))
+            desc[name] = t
+        sched.append(track.Parallel(tasks, clients=el["clients"]) if el["parallel"] else tasks[0])
+    ch = track.Challenge("default", default=True, schedule=sched)
+    return track.Track(name="simtrack", description="sim", challenges=[ch], corpora=rc), desc
+
+
+def e2e_run(case, trk, seed):
+    """one simulated race; returns (groups, outcome). groups: (worker, column, task) -> {"entries": [...], "bulks": [log entries]}"""
+    from harness import sim_race
+    from esrally.driver import driver
+
+    sc = {"track": trk, "hosts": case["hostnames"], "cores": case["cores"], "svc": {}, "bulk_svc": [0.0, 0.0078125, 0.015625],
+          "schedule": []}
+    sim = sim_race.Sim(sc, seed=seed)
+    try:
+        sim.start()
+        done = lambda s_: any(type(m).__name__ in ("BenchmarkComplete", "BenchmarkFailure") for m in s_.rc.inbox) and not s_.channels
+        res = sim.run(max_events=120000, max_vtime=2000.0, until=done)
+        inbox = [type(m).__name__ for m in sim.rc.inbox]
+        if "BenchmarkFailure" in inbox:
+            f = [m for m in sim.rc.inbox if type(m).__name__ == "BenchmarkFailure"][0]
+            outcome = ("failure", str(f.message)[-400:])
+        elif res != "until":
+            outcome = ("hang", inbox)
+        else:
+            outcome = ("complete", None)
+        d = sim.actors["driver"].inst.driver
+        groups = {}
+        if d.allocations is not None:
+            worker_of = {}
+            wno = 0
+            for assignment in driver.calculate_worker_assignments(d.load_driver_hosts, len(d.allocations)):
+                for clients in assignment["workers"]:
+                    for c in clients:
+                        worker_of[c] = wno
+                    wno += 1
+            # the r-th allocation of a task on a client
+            nth = {}
+            for c, row in enumerate(d.allocations):
+                seen = collections_counter()
+                for column, x in enumerate(row):
+                    if isinstance(x, driver.TaskAllocation):
+                        seen[x.task.name] += 1
+                        nth[(c, x.task.name, seen[x.task.name])] = (column, x)
+                        key = (worker_of[c], column, x.task.name)
+                        grp = groups.setdefault(key, {"entries": [], "bulks": []})
+                        grp["entries"].append([x.client_index_in_task, x.task.clients, x.total_clients, x.global_client_index])
+            for b in sim.bulk_log:
+                column, x = nth[(b["client"], b["task"], b["run"])]
+                groups[(worker_of[b["client"]], column, b["task"])]["bulks"].append((x.client_index_in_task, b))
+        return groups, outcome
+    finally:
+        sim.shutdown()
+
+
+def collections_counter():
+    import collections
+
+    return collections.Counter()
+
+
+def run_e2e(ctx, case):
+    import collections
+
+    tmp = tempfile.mkdtemp(prefix="c03-")
+    try:
+        files, targets, rc, mc = build_tree(tmp, case)
+        trk, desc = e2e_track(case, rc, force_full=False)
+        groups, outcome = e2e_run(case, trk, case["seed"])
+        if outcome[0] != "complete":
+            ctx.fail("race-" + outcome[0], "a fault-free race with bulk tasks does not complete", "BenchmarkComplete", outcome[1])
+            ctx.sig(["e2e", outcome[0]])
+            return
+        need_ref = any(d["kind"] == "bulk" and Fraction(d["pct"]) != 100 for d in desc.values())
+        ref_groups = None
+        if need_ref:
+            ref_trk, _ = e2e_track(case, rc, force_full=True)
+            ref_groups, ref_outcome = e2e_run(case, ref_trk, case["seed"] + 1)
+            if ref_outcome[0] != "complete":
+                ctx.fail("race-" + ref_outcome[0], "a fault-free race with bulk tasks does not complete", "BenchmarkComplete", ref_outcome[1])
+                return
+        per_task_docs = collections.defaultdict(list)
+        columns_of = {}   # (worker, task) -> columns
+        tags = set()
+        any_bulk = False
+        by_worker_task = collections.defaultdict(list)
+        for key in sorted(groups):
+            if desc[key[2]]["kind"] == "bulk":
+                by_worker_task[(key[0], key[2])].append(key)
+        for (wno, tname), keys in sorted(by_worker_task.items()):
+            d = desc[tname]
+            columns_of[(wno, tname)] = {k[1] for k in keys}
+            cis = [ci for ci in range(len(mc)) if (d["corpus"] is None or d["corpus"] == ci) and sum(x["docs"] for x in mc[ci]) > 0]
+            mcorp = [[{k: x[k] for k in ("lines", "docs", "meta", "ds")} for x in mc[ci]] for ci in cis]
+            remap, j = {}, 0
+            for ci in cis:
+                for x in mc[ci]:
+                    remap[j] = x["fidx"]
+                    j += 1
+            mfiles = {j: files[f] for j, f in remap.items()}
+            mtargets = {j: targets[f] for j, f in remap.items()}
+            # The model (runColumns) gives every column of the worker a new parameter source.  The sequence of bulks a group hands
+            # out does not depend on who asks (ingest_percentage_prefix), so any complete call order will do for the model.
+            mcols = []
+            for key in keys:
+                grp = groups[key]
+                idxs = sorted(e[0] for e in grp["entries"])
+                mcols.append({"entries": grp["entries"], "calls": [idxs[i % len(idxs)] for i in range(len(grp["bulks"]) + 2 * len(idxs) + 2)]})
+            m = ctx.model("bulk", "columns", {"batch": d["batch"], "bulk": d["bulk"], "conflicts": "none", "pct": d["pct"], "looped": False,
+                                              "prob": None, "on_update": False, "recency": None, "corpora": mcorp, "columns": mcols})
+            tags.update(m.get("tags", []))
+            if "err" in m:
+                ctx.diff("columns-error", m, "no error")
+                continue
+            for key, mres in zip(keys, m["r"]):
+                grp = groups[key]
+                mout = mres["out"]
+                if len(mout) != len(grp["bulks"]):
+                    ctx.diff("bulks-of-group", {"group": list(key), "bulks": len(mout)}, len(grp["bulks"]))
+                for k, (idx, b) in enumerate(grp["bulks"]):
+                    any_bulk = True
+                    blines = split_body(b["body"])
+                    if k < len(mout):
+                        mdocs, mitems = mout[k][1]
+                        dd = check_items(ctx, f"group {list(key)} bulk {k}", mitems, blines, mfiles, mtargets)
+                        if dd:
+                            ctx.diff("bulk-body", dd, None)
+                    if len(blines) % 2 != 0 or len(blines) // 2 > d["bulk"] or not blines:
+                        ctx.fail("bulk-over-size", "a bulk request is not 1..bulk-size (action, document) pairs", d["bulk"], len(blines))
+                        continue
+                    for q in range(0, len(blines), 2):
+                        try:
+                            aj = json.loads(blines[q])
+                        except ValueError:
+                            aj = None
+                        if not (isinstance(aj, dict) and len(aj) == 1 and list(aj)[0] in ("index", "create", "update")):
+                            ctx.fail("pairing", "line at an even position of the body is not an action-and-meta-data line", None, repr(blines[q]))
+                        per_task_docs[tname].append((blines[q] if b'"_id"' in blines[q] else None, blines[q + 1]))
+                pctf = Fraction(d["pct"])
+                if pctf != 100:
+                    ref = [{"body": b["body"]} for _, b in ref_groups.get(key, {"bulks": []})["bulks"]]
+                    check_stop_count(ctx, ref, [{"body": b["body"]} for _, b in grp["bulks"]], pctf, True)
+        for name, d in desc.items():
+            if d["kind"] != "bulk" or Fraction(d["pct"]) != 100:
+                continue
+            expected = []
+            for ci in range(len(mc)):
+                if (d["corpus"] is None or d["corpus"] == ci) and sum(x["docs"] for x in mc[ci]) > 0:
+                    for x in mc[ci]:
+                        ls = files[x["fidx"]]
+                        expected += [(ls[2 * q], ls[2 * q + 1]) for q in range(x["docs"])] if x["meta"] else [(None, l) for l in ls]
+            got = per_task_docs.get(name, [])
+            if sorted(got, key=repr) != sorted(expected, key=repr):
+                cg, ce = collections.Counter(got), collections.Counter(expected)
+                ctx.fail("not-exactly-once", "multiset of (action, document) pairs received by the _bulk endpoint for a task differs from its corpora",
+                         {"corpus_docs": len(expected)}, {"received": len(got), "missing": sum((ce - cg).values()), "surplus": sum((cg - ce).values()),
+                                                          "task": name, "clients": d["clients"]})
+        multi_column = any(len(c) > 1 for c in columns_of.values())
+        ctx.count("e2e:task-in-several-columns-of-a-worker" if multi_column else "e2e:one-column-per-task")
+        ctx.sig([sorted(tags), multi_column, len(case["hostnames"]), need_ref, len(case["schedule"]) > 1], nontrivial=any_bulk)
+    finally:
+        shutil.rmtree(tmp, ignore_errors=True)
+
+
 STREAMS = [
     Stream("arith", gen_arith, run_arith, quick=8000, thorough=400000, shards=8),
     Stream("files", gen_files, run_files, quick=640, thorough=12000, shards=16),
     Stream("race", gen_race, run_race, quick=480, thorough=10000, shards=16),
+    Stream("e2e", gen_e2e, run_e2e, quick=240, thorough=4000, shards=16),
     Stream("reader", gen_reader, run_reader, quick=1600, thorough=60000, shards=8),
     Stream("gen", gen_gen, run_gen, quick=3000, thorough=100000, shards=4),
     Stream("offsets", gen_offsets, run_offsets, quick=16, thorough=200, shards=8),
